@@ -994,3 +994,87 @@ func lenOfValue(v ssa.Value, b *ssa.BasicBlock) ssa.Value {
 	}
 	return v
 }
+
+// RunLexInput — R-LEXINPUT (C05, C13, C19): the lexer scans exactly the text it is given. lexer.New stores its argument as
+// the input unchanged, and no caller hands it a transformed text (trimmed, with a byte order mark removed, ...): bytes
+// dropped before lexing are missing from the output, and every position and line the lexer reports is one in the
+// shortened text, not in the caller's.
+func (m *Model) RunLexInput(s *Sink, rule string) {
+	nw := m.PkgFunc("lexer", "New")
+	if nw == nil || len(nw.Params) < 1 {
+		s.Undecided(rule, "lexer.New", "-", "not found")
+		return
+	}
+	okStore, nStore := true, 0
+	what := ""
+	for _, b := range nw.Blocks {
+		for _, in := range b.Instrs {
+			st, ok := in.(*ssa.Store)
+			if !ok {
+				continue
+			}
+			fa, ok := st.Addr.(*ssa.FieldAddr)
+			if !ok || fieldName(fa.X.Type(), fa.Field) != "input" {
+				continue
+			}
+			nStore++
+			v := st.Val
+			if ld, isLd := v.(*ssa.UnOp); isLd {
+				if cv, okc := cellValue(ld); okc {
+					v = cv
+				}
+			}
+			if v != ssa.Value(nw.Params[0]) {
+				okStore = false
+				what = valueDesc(st.Val)
+			}
+		}
+	}
+	key := fnKey(nw) + "|the lexer's input is the given text, unchanged"
+	switch {
+	case nStore == 0:
+		s.Undecided(rule, key, m.Pos(nw.Pos()), "no store into the lexer's input field in lexer.New")
+	case okStore:
+		s.OK(rule, key, m.Pos(nw.Pos()), "l.input = input")
+	default:
+		s.Violation(rule, key, m.Pos(nw.Pos()), "lexer.New stores %s instead of its argument as the input: the bytes removed are missing from the output, and token positions, EOF and error lines refer to the shortened text, not to the text the caller gave", what)
+	}
+	// callers: the text is a parameter handed through, or the content of a file as read
+	if node := m.CG.Nodes[nw]; node != nil {
+		n := 0
+		for _, e := range node.In {
+			caller := e.Caller.Func
+			if isUserPkg(fnPkgPath(caller)) || !m.InModule(caller) || len(e.Site.Common().Args) < 1 {
+				continue
+			}
+			n++
+			k2 := fmt.Sprintf("%s|hands the lexer the text it was given", fnKey(caller))
+			bad := ""
+			for _, r := range m.resolveUp(e.Site.Common().Args[0], nil, 0) {
+				v := r
+				if ex, isEx := v.(*ssa.Extract); isEx {
+					v = ex.Tuple
+				}
+				switch x := v.(type) {
+				case *ssa.Parameter, *ssa.Const, *ssa.UnOp, *ssa.Phi:
+				case *ssa.Call:
+					if sc := x.Call.StaticCallee(); sc == nil || !m.InModule(sc) {
+						bad = "the result of " + valueDesc(x)
+					}
+				case *ssa.Convert:
+					// string(bytes) of a read
+				default:
+					bad = valueDesc(v)
+				}
+			}
+			if bad == "" {
+				s.OK(rule, k2, m.InstrPos(e.Site), "the argument is a parameter handed through or the content of a file")
+			} else {
+				s.Violation(rule, k2, m.InstrPos(e.Site), "%s hands lexer.New %s, a transformed text: what is removed or changed before lexing is removed or changed in the output, and reported positions and lines refer to the transformed text", fnKey(caller), bad)
+			}
+		}
+		if n == 0 {
+			s.Undecided(rule, "lexer.New|callers", "-", "no caller of lexer.New in the library")
+		}
+	}
+}
